@@ -82,12 +82,12 @@ class C03(Oracle):
     pid = "C03"
 
     def on_scenario(self, ctx):
-        self._first = True
-
+        ctx.env.reset()
+        self._root_key = ctx.env.current_state.tensor.tobytes()     # the state reset() produces, whatever the
+                                                                    # order in which states are expanded
     def on_state(self, ctx, s, key, ms):
         m = ctx.model
-        if self._first:
-            self._first = False
+        if key == self._root_key:
             for i, a in enumerate(m.addrs):
                 pub = 1 if m.public[a[0]] else 0
                 if ms[i][2] != pub:
